@@ -1,7 +1,7 @@
 SPECIFICATION Spec
 CONSTANTS
   InitCaps = {1, 2}
-  MaxCap = 8
+  MaxCap = 4
   MaxPid = 5
   NShards = 2
   MaxTask = 2
